@@ -20,4 +20,4 @@ if __name__=='__main__':
         tgt=idx.get(n,{}).get('property') or n.split('-')[0].upper()
         v=[k for k,e in x['checks'].items() if e[0]==1]
         other=[f"{k}:exit{e[0]}" for k,e in x['checks'].items() if e[0] not in (0,1)]
-        print(f"{n:42s} base={x['baseline']:5s} caught={' '.join(v):28s} {'TARGET-QUIET' if tgt not in v else ''} {' '.join(other)}")
+        print(f"{n:42s} base={str(x['baseline']):5s} caught={' '.join(v):28s} {'TARGET-QUIET' if tgt not in v else ''} {' '.join(other)}")
